@@ -1371,6 +1371,29 @@ pub fn run(rng: &mut R, out: &mut Out) {
             psets.push(gen_pset(rng, Some(b), 1 + (i % 2) as u8));
         }
     }
+    // PSETs built through the mutation API (`add_*`, `insert_*`, `remove_*` in random order): the declared counts
+    // must follow, so that the printed / serialized form parses back
+    if let Some(pool) = psets.iter().find(|p| p.inputs().len() >= 2 && !p.outputs().is_empty()).cloned().or_else(|| psets.last().cloned()) {
+        for _ in 0..(6 * scale) {
+            let mut p = Pset::new_v2();
+            let steps = rng.gen_range(1..8);
+            for _ in 0..steps {
+                let inp = pool.inputs().get(rng.gen_range(0..pool.inputs().len().max(1))).cloned().unwrap_or_default();
+                let outp = pool.outputs().get(rng.gen_range(0..pool.outputs().len().max(1))).cloned();
+                match rng.gen_range(0..7) {
+                    0 => p.add_input(inp),
+                    1 | 2 => { let pos = rng.gen_range(0..=p.inputs().len()); p.insert_input(inp, pos); }
+                    3 => { if let Some(o) = outp { p.add_output(o); } }
+                    4 => { if let Some(o) = outp { let pos = rng.gen_range(0..=p.outputs().len()); p.insert_output(o, pos); } }
+                    5 => { if !p.inputs().is_empty() { let i = rng.gen_range(0..p.inputs().len()); p.remove_input(i); } }
+                    _ => { if !p.outputs().is_empty() { let i = rng.gen_range(0..p.outputs().len()); p.remove_output(i); } }
+                }
+            }
+            out.count("pset.built_through_mutation_api");
+            out.s("pset_counts_follow_the_maps", p.n_inputs() == p.inputs().len() && p.n_outputs() == p.outputs().len(), || format!("n_inputs={} inputs={} n_outputs={} outputs={}", p.n_inputs(), p.inputs().len(), p.n_outputs(), p.outputs().len()));
+            psets.push(p);
+        }
+    }
     text_b64(out, rng, 60 * scale, &psets);
 
     // ---------------- serde: hand-written impls (K + S)
@@ -1447,6 +1470,27 @@ pub fn run(rng: &mut R, out: &mut Out) {
     { let v = Params::Null; one_st(out, rng, &v, m); }
     for _ in 0..8 * scale {
         { let v = gen::params(rng); one_st(out, rng, &v, m); }
+    }
+    // byte strings whose CONTENT reads as text: only hex digits (even and odd length, both cases), other ASCII,
+    // multi-byte UTF-8 — a binary format must hand them back verbatim (never "decode" them), JSON prints them as hex
+    {
+        let texty: Vec<Vec<u8>> = vec![b"aa".to_vec(), b"cdef".to_vec(), b"0123456789abcdef".to_vec(), b"ABCDEF".to_vec(), b"abc".to_vec(), b"00".to_vec(),
+            b"hello world".to_vec(), "é€😀".as_bytes().to_vec(), b"\"\\".to_vec(), b"null".to_vec(), b"[]".to_vec(), vec![0x61; 66]];
+        for (i, t) in texty.iter().enumerate() {
+            out.count("bytes.texty");
+            let f = elements::dynafed::FullParams::new(Script::from(t.clone()), 1, elements::bitcoin::ScriptBuf::from_bytes(t.clone()), t.clone(), vec![t.clone(), texty[(i + 1) % texty.len()].clone()]);
+            { let v = Params::Full(f.clone()); one_st(out, rng, &v, 1); }
+            { let v = Params::Full(f.clone()).into_compact().unwrap(); one_st(out, rng, &v, 1); }
+            { let v = Script::from(t.clone()); one_st(out, rng, &v, 1); }
+            let mut h = gen::header(rng);
+            h.ext = if i % 2 == 0 { elements::BlockExtData::Proof { challenge: Script::from(t.clone()), solution: Script::from(t.clone()) } } else { elements::BlockExtData::Dynafed { current: Params::Full(f.clone()), proposed: Params::Null, signblock_witness: vec![t.clone()] } };
+            one_st(out, rng, &h, 1);
+            let mut tx = gen::tx_wide(rng, 1, 1);
+            tx.output[0].script_pubkey = Script::from(t.clone());
+            tx.input[0].script_sig = Script::from(t.clone());
+            tx.input[0].witness.script_witness = vec![t.clone(), vec![]];
+            one_st(out, rng, &tx, 1);
+        }
     }
     for _ in 0..6 * scale {
         { let v = gen::header(rng); one_st(out, rng, &v, m); }
